@@ -1,1 +1,2 @@
 pub mod gc;
+pub mod hexlab;
